@@ -558,9 +558,12 @@ package gmars
 //@   ensures [C13] 0 <= wi && wi < s.warriorCount && old(s.warriors[wi].state) == WarriorAlive ==> result != nil && memSame(s)
 //@   ensures [C13] result == nil ==> s.warriors[wi].state == WarriorAlive && s.warriors[wi].pq.length == 1
 //@   ensures [C02] result == nil ==> s.warriors[wi].pq.size == s.maxProcs
+// loading wraps modulo the core size: the code lands at (startOffset + i) % m (C12: any offset congruent modulo the core size gives the same core)
+//@   ensures [C12] result == nil && len(s.warriors[wi].data.Code) <= s.m && startOffset + len(s.warriors[wi].data.Code) < 18446744073709551616 ==> (forall i :: 0 <= i && i < len(s.warriors[wi].data.Code) ==> s.mem[(startOffset + i) % s.m] == s.warriors[wi].data.Code[i])
 //@   ensures [C13] result == nil && startOffset + s.warriors[wi].data.Start < 18446744073709551616 ==> qAt(s.warriors[wi].pq, 0) == (startOffset + s.warriors[wi].data.Start) % s.m
 //@   loop 1
 //@     invariant i <= len(w.data.Code) && memWf(s)
+//@     invariant [C12] len(w.data.Code) <= s.m && startOffset + len(w.data.Code) < 18446744073709551616 ==> (forall j :: 0 <= j && j < i ==> s.mem[(startOffset + j) % s.m] == w.data.Code[j])
 //@     decreases len(w.data.Code) - i
 
 //@ func (*reportSim).SpawnWarrior
@@ -1049,3 +1052,62 @@ package gmars
 //@        i == iter(i) + 2 && out[len(out) - 1].typ == tokSymbol && out[len(out) - 1].val == "+",
 //@        i == iter(i) + 1 && out[len(out) - 1] == expr[iter(i)])
 //@     decreases len(expr) - i
+
+// ---------------------------------------------------------------------------
+// C12: rotation equivariance of the ICWS'94 step (lemmas over the spec functions; chained to the code by C01)
+
+// d is c rotated by k places around a core of m cells
+//@ pure rot(c []Instruction, d []Instruction, k int, m int) = forall a :: 0 <= a && a < m ==> d[(a + k) % m] == c[a]
+//@ pure fieldsOK(c []Instruction, m int) = forall a :: 0 <= a && a < m ==> 0 <= c[a].A && c[a].A < m && 0 <= c[a].B && c[a].B < m
+
+//@ lemma shiftIdx [C12]: forall p, k, d, m :: 0 <= p && p < m && 0 <= k && k < m && 0 <= d && d < m ==> ((p + k) % m + d) % m == ((p + d) % m + k) % m
+
+// one operand: pointers (relative) are equal, the operand instruction is equal, the cores stay rotated
+//@ lemma operandRot [C12]
+//@   param c []Instruction
+//@   param d []Instruction
+//@   param PC int
+//@   param k int
+//@   param m int
+//@   param R int
+//@   param W int
+//@   param mode int
+//@   param f int
+//@   split mode in 0..7
+//@   assume 3 <= m && 0 <= PC && PC < m && 0 <= k && k < m && 1 <= R && R <= m && 1 <= W && W <= m && 0 <= f && f < m
+//@   assume rot(c, d, k, m) && fieldsOK(c, m)
+//@   show opPtr(opPre(d, (PC + k) % m, m, W, mode, f), (PC + k) % m, m, R, mode, f) == opPtr(opPre(c, PC, m, W, mode, f), PC, m, R, mode, f)
+//@   show opPtr(opPre(d, (PC + k) % m, m, W, mode, f), (PC + k) % m, m, W, mode, f) == opPtr(opPre(c, PC, m, W, mode, f), PC, m, W, mode, f)
+//@   show rot(opPre(c, PC, m, W, mode, f), opPre(d, (PC + k) % m, m, W, mode, f), k, m)
+//@   show rot(opPost(opPre(c, PC, m, W, mode, f), PC, m, W, mode, f), opPost(opPre(d, (PC + k) % m, m, W, mode, f), (PC + k) % m, m, W, mode, f), k, m)
+//@   show fieldsOK(opPost(opPre(c, PC, m, W, mode, f), PC, m, W, mode, f), m)
+// the operand instruction (fetched through the read pointer after the pre-decrement) is the same
+//@   show opPre(d, (PC + k) % m, m, W, mode, f)[((PC + k) % m + opPtr(opPre(c, PC, m, W, mode, f), PC, m, R, mode, f)) % m] == opPre(c, PC, m, W, mode, f)[(PC + opPtr(opPre(c, PC, m, W, mode, f), PC, m, R, mode, f)) % m]
+
+// the opcode stage: writing the result through the (relative) write pointer keeps the cores rotated
+//@ lemma resultRot [C12]
+//@   param c []Instruction
+//@   param d []Instruction
+//@   param PC int
+//@   param k int
+//@   param m int
+//@   param wpb int
+//@   param op int
+//@   param md int
+//@   param ira Instruction
+//@   param irb Instruction
+//@   split op in 0..16
+//@   assume 3 <= m && 0 <= PC && PC < m && 0 <= k && k < m && 0 <= wpb && wpb < m && 0 <= md && md <= 6
+//@   assume rot(c, d, k, m)
+//@   show rot(c[(PC + wpb) % m := opResult(op, md, c[(PC + wpb) % m], ira, irb, m)], d[((PC + k) % m + wpb) % m := opResult(op, md, d[((PC + k) % m + wpb) % m], ira, irb, m)], k, m)
+
+// successors are PC-relative: every queued address of the shifted battle is the original one shifted by k
+//@ lemma succRot [C12]
+//@   param PC int
+//@   param k int
+//@   param m int
+//@   param rpa int
+//@   assume 3 <= m && 0 <= PC && PC < m && 0 <= k && k < m && 0 <= rpa && rpa < m
+//@   show ((PC + k) % m + 1) % m == ((PC + 1) % m + k) % m
+//@   show ((PC + k) % m + 2) % m == ((PC + 2) % m + k) % m
+//@   show ((PC + k) % m + rpa) % m == ((PC + rpa) % m + k) % m
